@@ -395,7 +395,12 @@ def install(lib, np_):
     xs = as_arr(cx, x)
     dims = bshape(cx, list(xs.shape.dims), list(ys.shape.dims))
     if out is not None and isinstance(out, VArr):
-      np_.write(cx, out, 'np.divide(out=)')
+      value = None
+      if isinstance(where, VArr) and isinstance(y, VArr) and y.loc == out.loc and isinstance(x, (VInt, VReal)) \
+         and ys.term is not None and cx.st(where).term is not None and ys.shape.concrete and ys.shape.rank == 1:
+        xt = x.t if isinstance(x, VReal) else z3.ToReal(x.t)
+        value = TH.sdivwhere(xt, ys.term, cx.st(where).term)        # np.divide(c, w, where=m, out=w): untouched where m is False
+      np_.write(cx, out, 'np.divide(out=)', value=value)
       return out
     return cx.new(None, dims, 'f')
 
